@@ -410,15 +410,6 @@ func (u *Unit) step(st *State, fr *Frame, in ssa.Instruction, pred *ssa.BasicBlo
 	if len(u.borrows) > 0 {
 		u.borrowAtInstr(st, fr, in)
 	}
-	if base := u.baseCalleeSet(); base != nil {
-		for _, op := range in.Operands(nil) {
-			if g := moduleGlobal(*op); g != nil && !base["global:"+g.String()] {
-				// what a package-level variable holds is known only through contracts: one the
-				// function did not use when its contract was written is an unknown value here
-				st.weaken("use of the package-level variable " + g.Name() + ", which this function did not use when its contract was written and whose contents are not modelled")
-			}
-		}
-	}
 	if fr.Parent != nil {
 		if x, ok := in.(*ssa.UnOp); ok && x.Op == token.MUL {
 			if g, isG := x.X.(*ssa.Global); isG && u.helperFrame(fr) {
